@@ -37,7 +37,8 @@ package ast
 //@ cellinv E_ast_Stmt v: nodeOK(v)
 //@ cellinv MV_Str_ast_Expr v: nodeOK(v)
 //@ cellinv E_S_ast_VarStmt d: optNode(d.Initializer)
-//@ cellinv H_ast_Literal_Value v: canon(v)
+// a literal holds a number, a string, a boolean or nil: never an array or an object (String() formats it with %v)
+//@ cellinv H_ast_Literal_Value v: canon(v) && !isArr(v) && !isObj(v)
 
 // every listed property name of an object literal has an initialiser
 //@ typeinv ast.ObjectLiteral o: forall(k, 0, len(o.Keys), has(o.Properties, o.Keys[k].Lexeme) && nodeOK(o.Properties[o.Keys[k].Lexeme]) && lvl(o.Properties[o.Keys[k].Lexeme]) >= 0)
